@@ -1,4 +1,4 @@
-import NeumannModel.Rel.BucketLemmas
+import NeumannModel.Rel.RollbackLemmas
 /-
   C04 — property theorems, part 2: index lookups return exactly the matching rows WHATEVER THE ORDER of the row
   ids inside a bucket and whatever history produced it.
@@ -233,5 +233,89 @@ theorem narrowing_by_binary_search_loses_rows_witness :
     selectNarrow binSearch (run moveSchema moveOps1) moveQuery = [1] ∧
     selectNarrow binSearch (run moveSchema moveOpsLate) moveQuery = [1, 2, 3, 4] := by
   decide
+
+/-! ### histories with rolled-back statements (`begin_transaction; tx_delete / tx_update; rollback`) -/
+
+/-- **a rolled-back DELETE / UPDATE changes no row** -- in every state reachable by inserts, updates, deletes,
+    index DDL AND rolled-back statements, the table after `begin; DELETE / UPDATE ... WHERE c; rollback` has the
+    same slab and schema, the statement reported exactly the matching rows while it ran, the index invariant
+    holds again (only the ORDER inside the id vectors differs: the restored ids are pushed onto the end) -/
+theorem rolled_back_statement_changes_no_row (schema : List (ColType × Bool)) (xops : List XOp) (c : Cond)
+    (sets : List (Nat × Value)) :
+    let t := runX schema xops
+    (deleteRolledBack t c).rows = t.rows ∧ (deleteRolledBack t c).schema = t.schema ∧
+    IdxInv (deleteRolledBack t c) ∧
+    (∀ t' n, updateRolledBack t c sets = .ok (t', n) →
+      t'.rows = t.rows ∧ t'.schema = t.schema ∧ n = (spec t c).length ∧ IdxInv t') ∧
+    (∀ e, updateRolledBack t c sets = .error e → update t c sets = .error e ∧ applyX t (.updateRollback c sets) = t) := by
+  intro t
+  have hi : IdxInv t := runX_inv schema xops
+  refine ⟨deleteRolledBack_rows t c hi.1, ?_, deleteRolledBack_preserves t c hi, ?_, ?_⟩
+  · unfold deleteRolledBack; rw [restoreFold_schema, deleteFold_schema]
+  · intro t' n h
+    obtain ⟨h1, h2, h3⟩ := updateRolledBack_rows t c sets t' n hi.1 h
+    refine ⟨h1, h2, ?_, updateRolledBack_preserves t c sets t' n hi h⟩
+    rw [h3]; simp [matching, spec]
+  · intro e h
+    refine ⟨?_, by simp only [applyX, h]⟩
+    unfold updateRolledBack at h
+    unfold update
+    cases hv : validateSets t.schema sets with
+    | some e' => simp only [hv, Except.error.injEq] at h ⊢; exact h
+    | none => simp [hv] at h
+
+/-- a history with both kinds of rolled-back statement -/
+def rbSchema : List (ColType × Bool) := [(.int, false), (.int, false)]
+def rbOps : List XOp :=
+  [.base (.createHash (.col 0)), .base (.createHash (.col 1)),
+   .base (.insert [.int 1, .int 3]), .base (.insert [.int 1, .int 3]), .base (.insert [.int 1, .int 3]),
+   .base (.insert [.int 1, .int 4]),
+   .deleteRollback (.rng .le .id (.int 2))]
+
+example : (runX rbSchema rbOps).rows = (runX rbSchema (rbOps.take 6)).rows := by decide
+example : updateRolledBack (runX rbSchema rbOps) .tt [(5, .int 1)] = .error .colNotFound := by decide
+
+/-- **rolled-back statements reorder buckets too**: the undo log is applied backwards and every restored id is
+    pushed onto the end of its vector -- after `begin; DELETE WHERE _id <= 2; rollback` the vector of `c0 = 1` is
+    `[3, 4, 2, 1]` (no UPDATE ever ran); a rolled-back UPDATE of row 3 then gives `[4, 2, 1, 3]`; the binary-search
+    narrowing loses every row on this history, the code's lookup and the membership narrowing lose none -/
+theorem rollback_reorders_bucket_witness :
+    tryIndexLookupT (runX rbSchema rbOps) (.eq (.col 0) (.int 1)) = some [3, 4, 2, 1] ∧
+    tryIndexLookupT (runX rbSchema (rbOps ++ [.updateRollback (.eq .id (.int 3)) [(0, .int 2)]]))
+      (.eq (.col 0) (.int 1)) = some [4, 2, 1, 3] ∧
+    spec (runX rbSchema rbOps) moveQuery = [1, 2, 3] ∧
+    select (runX rbSchema rbOps) moveQuery = [1, 2, 3] ∧
+    selectNarrow (fun l x => l.contains x) (runX rbSchema rbOps) moveQuery = [1, 2, 3] ∧
+    selectNarrow binSearch (runX rbSchema rbOps) moveQuery = [] := by
+  decide
+
+/-- **strategies agree in every history with rolled-back statements**: every strategy returns exactly the rows
+    for which the condition is true, also with the candidates in the code's order -/
+theorem strategies_agree_with_rollbacks (schema : List (ColType × Bool)) (xops : List XOp) (c : Cond) :
+    let t := runX schema xops
+    select t c = spec t c ∧ selectT t c = spec t c ∧
+    (∀ limit offset, selectLimit t c limit offset = ((spec t c).drop offset).take limit) ∧
+    count t c = (spec t c).length ∧
+    (∀ batch, 0 < batch → cursorSelect t c batch = spec t c) ∧
+    columnarSelect t c = spec t c ∧
+    selectRows t c = specRows t c ∧
+    (∀ i, i < t.schema.length → countColumn t i c = .ok ((specRows t c).filter (nonNull i)).length) ∧
+    (∀ limit offset, routerSelect t c limit offset =
+        (let rows := match offset with | some o => (spec t c).drop o | none => spec t c
+         match limit with | some l => rows.take l | none => rows)) := by
+  intro t
+  have hi : IdxInv t := runX_inv schema xops
+  have hT : selectT t c = spec t c := by
+    unfold selectT
+    rcases tryIndexLookupT_perm t c with ⟨h1, _⟩ | ⟨ids', ids, h1, h2, hp⟩
+    · rw [h1]; exact scanSelect_eq_spec t c hi.1
+    · rw [h1]
+      have hc := cands_perm t c ids ids' (cands_of_lookup t hi c ids h2) hp
+      exact selectViaIds_eq_spec t c ids' hi.1 hc.1 hc.2
+  exact ⟨select_eq_spec t hi c, hT, selectLimit_eq t hi c, count_eq t hi c,
+    fun b hb => cursorSelect_eq t hi c b hb, columnarSelect_eq t hi c, selectRows_eq_specRows t hi c,
+    fun i hcol => countColumn_eq t hi i c hcol, routerSelect_eq t hi c⟩
+
+example : select (runX rbSchema rbOps) moveQuery = [1, 2, 3] ∧ count (runX rbSchema rbOps) moveQuery = 3 := by decide
 
 end Neumann.Rel.BucketProps
